@@ -652,6 +652,7 @@ APPS = [("ape", "tum", ["ref.txt", "est.txt"]),
 class C18(Check):
     prop = "C18"
     level = "exploration"
+    case_timeout_s = 600  # whole runs with plots, on a loaded machine
     quick_budget_s = 50.0
     thorough_budget_s = 840.0
     batch = 20
